@@ -181,6 +181,14 @@ def validators_accept_exactly(ctx):
                  "only type tests" if not vt else
                  f"`{vt[0]}` rejects some values of an accepted type (every finite or infinite float, zero, negative zero and "
                  f"subnormals are valid field values; every string is a valid tag value)", f.loc())
+        # a validating loop looks at every element: no exit other than raising
+        early = [x for lp in walk_local(f.node) if isinstance(lp, (ast.For, ast.While))
+                 and any(isinstance(y, ast.Raise) for y in walk_local(lp))
+                 for x in walk_local(lp) if isinstance(x, (ast.Break, ast.Return))]
+        yield Ob("C14.R2", ["C14"], f"{name} | every element is validated", not early,
+                 "validating loops end only by exhaustion or by raising" if not early else
+                 f"`{type(early[0]).__name__.lower()}` at line {early[0].lineno} ends the validation at the first element that takes "
+                 f"this path: later keys/values are stored unchecked", f.loc())
         # mapping test
         mt = False
         for n in walk_local(f.node):
